@@ -1,4 +1,5 @@
 import QuillModel.Backend.SinkBack
+import QuillModel.Backend.FlushGate
 /-!
 An idle poll with nothing injected: the cache is up to date after reading (`populate_nil_newFlag`), every cached
 failure counter is 0 after the report (`checkFailures_nil_fail`), and neither changes until the contexts are
@@ -12,6 +13,7 @@ theorem newFlagFalse_closedB : ClosedB (fun x => x.newFlag = false) where
   siteCnt := fun _ _ h => h
   emitInj := fun _ _ _ _ _ h => h
   clock := fun _ _ h => h
+  lastFlush := fun _ _ h => h
   gone := fun _ h => h
   refresh := fun s h => by unfold refreshCache; split <;> first | rfl | exact h
   allEmpty := fun s h => by
@@ -194,10 +196,11 @@ theorem idleState_nil_facts (s : BSt) :
     (idleState (runInj []) s).newFlag = false := by
   have hinjN := runInj_nil_ok newFlagFalse_closedB
   unfold idleState
-  generalize hY : flushSinks (runInj [] (populate (runInj []) s).1 5) = Y
+  generalize hY : flushGate (runInj []) (runInj [] (populate (runInj []) s).1 5)
+    (runInj [] (populate (runInj []) s).1 5).cfg.flushInterval = Y
   have hYN : Y.newFlag = false := by
     rw [← hY]
-    apply newFlagFalse_closedB.flushSinks
+    apply flushGate_ok newFlagFalse_closedB hinjN
     exact (hinjN _ 5 (populate_nil_newFlag s)).1
   refine ⟨fun j hj => ?_, checkFailures_ok newFlagFalse_closedB hinjN Y hYN⟩
   have hcc : (checkFailures (runInj []) Y).cache = Y.cache := congrArg Core.cache (core_checkFailures_nil Y)
@@ -209,13 +212,14 @@ theorem idleState_nil_facts (s : BSt) :
     clean-ups (nothing injected at site 9) every registered context still has a zero counter -/
 theorem fail_zero_after_cleanups (inj : BSt → Nat → BSt) (hq : Quiet9 inj) (X : BSt)
     (hf : ∀ j ∈ X.cache, (X.th j).fail = 0) (hcr : X.cache = X.registry) :
-    ∀ i ∈ (cleanupLoggers inj (cleanupContexts (allEmpty X).1)).registry,
-      ((cleanupLoggers inj (cleanupContexts (allEmpty X).1)).th i).fail = 0 := by
+    ∀ i ∈ (cleanupLoggers inj (preEraseFlush (cleanupContexts (allEmpty X).1))).registry,
+      ((cleanupLoggers inj (preEraseFlush (cleanupContexts (allEmpty X).1))).th i).fail = 0 := by
   intro i hi
-  obtain ⟨f1, _, _⟩ := cleanupLoggers_frame inj hq (cleanupContexts (allEmpty X).1)
-  obtain ⟨_, g2⟩ := cleanupLoggers_fail inj hq (cleanupContexts (allEmpty X).1)
+  obtain ⟨f1, _, _⟩ := cleanupLoggers_frame inj hq (preEraseFlush (cleanupContexts (allEmpty X).1))
+  obtain ⟨_, g2⟩ := cleanupLoggers_fail inj hq (preEraseFlush (cleanupContexts (allEmpty X).1))
   obtain ⟨c1, c2⟩ := cleanupContexts_fail_reg (allEmpty X).1
-  rw [f1] at hi
+  have hsol := preEraseFlush_sol (cleanupContexts (allEmpty X).1)
+  rw [f1, hsol.registry] at hi
   have hi2 := c2 i hi
   have hreg : (allEmpty X).1.registry = X.registry := by
     have := congrArg Core.registry (core_allEmpty X)
@@ -223,7 +227,7 @@ theorem fail_zero_after_cleanups (inj : BSt → Nat → BSt) (hq : Quiet9 inj) (
     rw [e] at this; rw [this]
     unfold Core.refresh; split <;> rfl
   rw [hreg, ← hcr] at hi2
-  rw [g2, c1, allEmpty_fail]
+  rw [g2, hsol.th, c1, allEmpty_fail]
   exact hf i hi2
 
 end Backend.PC
